@@ -1,4 +1,4 @@
-CONSTANT Want = {"C08_ModifiedSurvives", "C08_ModifiedReported", "C08_OutsidePlanUntouched", "Conforms"}
+CONSTANT Want = {"C08_ModifiedSurvives", "C08_ModifiedReported", "C08_OutsidePlanUntouched", "C03_UntrackedOnDiskUntouched", "Conforms"}
 CONSTANTS Shape = "small" MaxEdits = 0 Budget = 0 LinkRepaired = TRUE
 SPECIFICATION TSpec
 CHECK_DEADLOCK FALSE
